@@ -77,6 +77,7 @@ FUNCS: Dict[str, tuple] = {}   # atom name -> (fname, argument Poly)
 
 EVEN_FUNCS = {"sinc", "cos", "abs", "sq"}
 AREA_ATOMS = {"SAREA", "AREA"}
+POINT_ATOMS = {"c.x": "x", "c.y": "y", "c.z": "z"}
 
 
 def fatom(fname, arg: Poly) -> Poly:
@@ -169,6 +170,8 @@ def axis_signature(p: Poly, axes=("x", "y", "z")):
             ps = parse_sym(atom)
             if ps and ps[0] in e:
                 e[ps[0]] += ex
+            elif atom in POINT_ATOMS and POINT_ATOMS[atom] in e:
+                e[POINT_ATOMS[atom]] += ex       # a component of a fixed point (the centroid) carries its axis
             elif atom in AREA_ATOMS:
                 # an area carries one power of each in-plane axis
                 e[axes[0]] += ex
